@@ -101,7 +101,7 @@ def cmd_run(ident, props):
         sh(["git", "-C", REPO, "checkout", "--", "."])
         # evidence files were rewritten by runs on a patched tree: restore the committed ones
         sh(["git", "-C", ROOT, "checkout", "--", "evidence"])
-        sh(["git", "-C", ROOT, "checkout", "--", "lean/Whawty/Gen/Facts.lean", "lean/Whawty/Gen/Scan.lean", "lean/Whawty/Gen/CheckFile.lean", "lean/Whawty/Gen/Codec.lean", "lean/Whawty/Gen/Argon.lean", "lean/Whawty/Gen/HashStr.lean"])
+        sh(["git", "-C", ROOT, "checkout", "--", "lean/Whawty/Gen/Facts.lean", "lean/Whawty/Gen/Scan.lean", "lean/Whawty/Gen/CheckFile.lean", "lean/Whawty/Gen/Codec.lean", "lean/Whawty/Gen/Argon.lean", "lean/Whawty/Gen/HashStr.lean", "lean/Whawty/Gen/PolicyCond.lean"])
     if os.environ.get("SEEDED_SEED"):
         return 0   # a robustness run at another seed: printed, not recorded
     meta["caught_by"] = sorted(p for p, r in res.items() if r["exit"] != 0)
